@@ -171,6 +171,12 @@ fn handle(kind: &str, f: &[String]) -> String {
             ),
             Err(k) => format!("ERR\t{k}"),
         },
+        ("connect", 3) => {
+            match verif::connect_element(&unhex_s(&f[0]), &parse_attrs(&f[1]), &parse_els(&f[2])) {
+                Ok((n, a)) => format!("OK\t{}\t{}", hex(n.as_bytes()), show_attrs(&a)),
+                Err(k) => format!("ERR\t{k}"),
+            }
+        }
         ("evalattr", 3) => {
             let (r, w) = verif::eval_attr(
                 &unhex_s(&f[0]),
